@@ -263,9 +263,11 @@ def run_batch(case):
     if kind == "exact" and not v:
         ref = (est.reference_vectors_.copy(), est.reference_distribution_.copy())
         G0 = base @ base.T
+        e2s = {}
         for im in ("lil", "generator"):
             try:
                 e2 = fit_model("exact", metric, dim, input_method=im, reference=ref)
+                e2s[im] = e2
                 X, vs = to_lil(rows, vec)
                 if im == "lil":
                     for ms in ("2G", str(est.reference_vectors_.size * 8), "8"):
@@ -281,6 +283,38 @@ def run_batch(case):
                         v.append(viol("format-dependent:generator", "generator input gives a different Gram matrix (max diff %.3g)" % (np.abs(out @ out.T - G0).max() if out.shape == base.shape else -1)))
             except Exception as e:
                 v.append(viol("format-exception:%s:%s" % (im, type(e).__name__), "%s input raised %r" % (im, e)))
+        # truncation to max_distribution_size: a row with more support points than the limit is embedded as the measure made
+        # of its k heaviest points, renormalised - in every input format (rows perturbed so that all four masses differ)
+        prows = rows + np.array([0.4, 0.3, 0.2, 0.1])
+        for k in (2, 3):
+            trunc = prows.copy()
+            for r in trunc:
+                r[np.argsort(-r)[k:]] = 0.0
+            try:
+                want = T(trunc)
+                Gk = want @ want.T
+                est.max_distribution_size = k
+                out = T(prows)
+                if out.shape != want.shape or np.abs(out - want).max() > tol:
+                    v.append(viol("truncation:spmatrix", "max_distribution_size=%d: transform differs from the transform of the %d heaviest points by %.3g" % (k, k, np.abs(out - want).max() if out.shape == want.shape else -1)))
+                X, vs = to_lil(prows, vec)
+                for im in ("lil", "generator"):
+                    e2 = e2s.get(im)
+                    if e2 is None:
+                        continue
+                    e2.max_distribution_size = k
+                    e2.memory_size = "2G"
+                    if im == "lil":
+                        out = np.asarray(e2.transform([x.copy() for x in X], vectors=[a.copy() for a in vs]))
+                    else:
+                        e2.generator_n_distributions = len(X)
+                        out = np.asarray(e2.transform((x for x in X), vectors=(a for a in vs)))
+                    if out.shape != want.shape or np.abs(out @ out.T - Gk).max() > 1e-4:
+                        v.append(viol("truncation:%s" % im, "max_distribution_size=%d, %s input: Gram matrix differs from that of the %d heaviest points by %.3g" % (k, im, k, np.abs(out @ out.T - Gk).max() if out.shape == want.shape else -1)))
+            except Exception as e:
+                v.append(viol("truncation-exception:%s" % type(e).__name__, "max_distribution_size=%d raised %r" % (k, e)))
+            finally:
+                est.max_distribution_size = 256
         # full rank: distances between embedded training rows equal those between raw LOT vectors
         Xn = sp.csr_matrix(TRAIN / TRAIN.sum(axis=1, keepdims=True))
         vv = vec / np.linalg.norm(vec, axis=1, keepdims=True) if metric == "cosine" else vec
